@@ -7,21 +7,33 @@ DAMAGE = [b"\n", b"\r\n", b"$-2\r\n", b"*x\r\n", b"$abc\r\n", b":x\r\n", b"*1\r\
 IGNORED = [b"+OK\r\n", b"PING\r\n", b":12\r\n", b"$3\r\nabc\r\n", b"$-1\r\n"]   # well-formed values that are not commands: no reply
 
 
-def session(rng, crlf_payloads=True, pubsub=True, damage=True, nsteps=None):
+def session(rng, crlf_payloads=True, pubsub=True, damage=True, nsteps=None, reconnect=False):
+    """reconnect: a connection the server dropped (protocol damage) or the client closed is replaced by a NEW connection under a fresh id,
+    so that later steps run on connections opened after other connections ended in every possible way"""
     ndb = rng.choice([1, 2, 16, 16])
     lines = ["S %d" % ndb]
     nconn = rng.randint(1, 4)
+    alias = {i: i for i in range(1, nconn + 1)}
+    next_id = [nconn + 10]
+
+    def renew(c):
+        if reconnect:
+            alias[c] = next_id[0]
+            next_id[0] += 1
     keys = rng.sample(execgen.KEYS, 3)
     subscribed = set()
     for _ in range(nsteps or rng.randint(3, 25)):
-        c = rng.randint(1, nconn)
+        slot = rng.randint(1, nconn)
+        c = alias[slot]
         r = rng.random()
         if r < 0.04:
             lines.append("K %d" % c)
+            renew(slot)
             continue
         if r < 0.12 and pubsub:
             lines.append("D %d" % c)
             continue
+        damaged = False
         payload = b""
         published = False
         for _ in range(rng.randint(1, 5)):
@@ -47,14 +59,17 @@ def session(rng, crlf_payloads=True, pubsub=True, damage=True, nsteps=None):
             elif damage:
                 payload += rng.choice(DAMAGE)
                 payload += gen.enc_cmd([b"SET", b"after-error", b"1"])
+                damaged = True
         lines.append("C %d %s" % (c, core.hx(payload)))
+        if damaged:
+            renew(slot)
         if published:
             for s in sorted(subscribed):
                 lines.append("D %d" % s)
     for s in sorted(subscribed):
         lines.append("D %d" % s)
     # nothing of a malformed tail may have been executed
-    lines.append("C %d %s" % (nconn + 1, core.hx(gen.enc_cmd([b"GET", b"after-error"]))))
+    lines.append("C %d %s" % (nconn + 5, core.hx(gen.enc_cmd([b"GET", b"after-error"]))))
     return lines
 
 
